@@ -29,6 +29,11 @@ static_assert(std::is_empty<nitro::lang::tuple_operators<key>>::value || sizeof(
 static_assert(std::is_same<nitro::lang::unordered_set<key>::hasher, nitro::lang::hash_wrapper<key>>::value, "[C16 w9] unordered_set uses hash_wrapper");
 static_assert(std::is_same<nitro::lang::unordered_map<key, int>::hasher, nitro::lang::hash_wrapper<key>>::value, "[C16 w10] unordered_map uses hash_wrapper");
 
+// key equality of the containers is the key type's own operator== (hash agrees with ==, so must the container)
+static_assert(std::is_same<nitro::lang::unordered_set<key>::key_equal, std::equal_to<key>>::value, "[C16 w11] unordered_set compares keys with std::equal_to (the key's own ==)");
+static_assert(std::is_same<nitro::lang::unordered_map<key, int>::key_equal, std::equal_to<key>>::value, "[C16 w12] unordered_map compares keys with std::equal_to (the key's own ==)");
+static_assert(std::is_same<nitro::lang::unordered_set<std::shared_ptr<int>>::key_equal, std::equal_to<std::shared_ptr<int>>>::value, "[C16 w13] pointer keys are compared with their own == (identity)");
+
 void uses()
 {
     nitro::lang::unordered_set<key> s;
